@@ -116,6 +116,26 @@ def run_config(cfg, out_dir, nonce, repo=REPO, crates=None, m1=M1_FILTER):
 
 def extract(cfgs, repo=REPO, keep=False):
     """Returns {cfg: {crate: facts}} plus metadata."""
+    # Checker-testing aid only (tools/determinism.py): reuse one extraction of a *scratch* tree across several rule runs.
+    # Refused unless the evidence goes elsewhere too, so a registered command can never be served from a snapshot.
+    tc = os.environ.get("IPP_TEST_FACTS_CACHE")
+    if tc:
+        if not os.environ.get("IPP_EVIDENCE_DIR") or not os.environ.get("IPP_REPO"):
+            raise ExtractError("IPP_TEST_FACTS_CACHE is a checker-testing aid: it needs IPP_REPO and IPP_EVIDENCE_DIR pointing at scratch locations")
+        path = os.path.join(tc, "facts-%s.json" % "".join(cfgs))
+        if os.path.exists(path):
+            with open(path) as f:
+                d = json.load(f)
+            return d["facts"], d["meta"]
+        os.environ.pop("IPP_TEST_FACTS_CACHE")
+        try:
+            facts, meta = extract(cfgs, repo=repo, keep=keep)
+        finally:
+            os.environ["IPP_TEST_FACTS_CACHE"] = tc
+        os.makedirs(tc, exist_ok=True)
+        with open(path, "w") as f:
+            json.dump({"facts": facts, "meta": meta}, f)
+        return facts, meta
     ensure_driver()
     nonce = uuid.uuid4().hex
     out_dir = os.path.join(CACHE, "facts", nonce)
